@@ -81,6 +81,16 @@ module N =
     | Gt -> n'
     | _ -> n
 
+  (** val div2 : coq_N -> coq_N **)
+
+  let div2 = function
+  | N0 -> N0
+  | Npos p0 ->
+    (match p0 with
+     | Coq_xI p -> Npos p
+     | Coq_xO p -> Npos p
+     | Coq_xH -> N0)
+
   (** val pos_div_eucl : positive -> coq_N -> coq_N * coq_N **)
 
   let rec pos_div_eucl a b =
@@ -109,6 +119,12 @@ module N =
     | Npos p -> (match m with
                  | N0 -> N0
                  | Npos q -> Pos.coq_land p q)
+
+  (** val shiftr : coq_N -> coq_N -> coq_N **)
+
+  let shiftr a = function
+  | N0 -> a
+  | Npos p -> Pos.iter div2 a p
 
   (** val to_nat : coq_N -> nat **)
 
